@@ -3,7 +3,7 @@
 # usage: coverage.sh [runs per property (default 300)] [properties...]
 # The cover tool does not follow overlay-added files, so the overlay is applied physically to scratch copies of /repo and
 # of the harness module; everything lives under one mktemp directory that is removed at the end.
-# Output: /verif/evidence/coverage.txt (per-function list of unreached code, total) - informational.
+# Output: /verif/reach/coverage.txt (per-function list of unreached code, total) - informational.
 set -e
 export GOFLAGS=-mod=mod GOPROXY=off GOSUMDB=off GOTOOLCHAIN=local
 runs=${1:-300}; [ $# -gt 0 ] && shift
@@ -44,6 +44,6 @@ wait
 cd $S/repo
 { echo "mode: set"; cat $S/cover.C* | grep -v '^mode:' | grep -v '_test.go' | grep -v '/sim_' ; } > $S/cover.all
 go1.26.8 tool cover -func=$S/cover.all > $S/func.txt 2>$S/func.err || { cat $S/func.err | head; }
-mkdir -p /verif/evidence
-{ echo "# statement coverage of pandora under the quick-tier workloads, $runs runs per property ($props)"; tail -1 $S/func.txt; echo "# functions below 100 %, lowest first"; grep -v '100.0%' $S/func.txt | grep -v '^total' | sed "s#github.com/yandex/pandora/##" | awk '{print $NF, $1, $2}' | sort -n ; } > /verif/evidence/coverage.txt
+mkdir -p /verif/reach
+{ echo "# statement coverage of pandora under the quick-tier workloads, $runs runs per property ($props)"; tail -1 $S/func.txt; echo "# functions below 100 %, lowest first"; grep -v '100.0%' $S/func.txt | grep -v '^total' | sed "s#github.com/yandex/pandora/##" | awk '{print $NF, $1, $2}' | sort -n ; } > /verif/reach/coverage.txt
 tail -1 $S/func.txt
